@@ -63,6 +63,8 @@ def case_strategy(draw):
     if draw(st.booleans()):
         topo["lock"] = {"kind": draw(st.sampled_from(["switch", "switch", "entrance"])),
                         "cap": draw(st.integers(1, 3))}
+    # the lock may be a VUK to an upper playfield (balls come back to the main playfield through a transfer switch)
+    topo["upper"] = bool(topo["lock"]) and topo["lock"]["kind"] == "switch" and draw(st.booleans())
     devs = ["bd_trough", "bd_launcher"] + (["bd_lock"] if topo["lock"] else []) + (["bd_vuk"] if topo["vuk"] else [])
     ops = [
         st.tuples(st.just("add_ball"), st.integers(1, 3), st.booleans()).map(list),
@@ -81,6 +83,8 @@ def case_strategy(draw):
     if topo["lock"]:
         ops += [st.tuples(st.just("lock_shot"), st.sampled_from([50, 400, 1500])).map(list)] * 4
         ops += [st.just(["knock"])]
+    if topo["upper"]:
+        ops += [st.just(["upper_exit"])] * 3 + [st.just(["pfu_hit"])]
     if topo["launcher"]["mechanical"]:
         ops += [st.tuples(st.just("plunge"), st.sampled_from([0, 100, 700]), st.booleans()).map(list)] * 2
     if topo["launcher"].get("pc_event"):
@@ -89,12 +93,23 @@ def case_strategy(draw):
     first = st.tuples(st.just("add_ball"), st.integers(1, min(n, 3)), st.booleans()).map(list)
     head = draw(st.lists(st.tuples(first, st.sampled_from(GAPS)).map(list), max_size=2))
     steps = head + draw(st.lists(st.tuples(op, st.sampled_from(GAPS)).map(list), min_size=2, max_size=30))
+    claims = draw(st.lists(st.sampled_from([True, True, False]), max_size=6))
+    if topo["upper"] and draw(st.booleans()):
+        # scenario: a ball gets into the VUK; it is either kicked up and rolls back over the transfer switch, or it is
+        # held there and pops out while the machine is at rest
+        if draw(st.booleans()):
+            claims = [False] + claims
+            head = [[["add_ball", 1, False], 5.0], [["lock_shot", 50], 3.1], [["upper_exit"], draw(st.sampled_from(GAPS))]]
+        else:
+            claims = [True] + claims
+            head = [[["add_ball", 1, False], 5.0], [["lock_shot", 50], 3.1], [["escape", "bd_lock", 1], 1.0],
+                    [["upper_exit"], draw(st.sampled_from(GAPS))]]
+        steps = head + steps
     outcomes = {}
     for d, to_pf in (("bd_trough", False), ("bd_outhole", False), ("bd_launcher", not topo["vuk"]), ("bd_lock", True),
                      ("bd_vuk", True)):
         outcomes[d] = draw(st.lists(outcome_strategy(to_pf, EJECT_TIMEOUT[d]), max_size=8))
-    return {"topo": topo, "steps": steps, "outcomes": outcomes,
-            "claims": draw(st.lists(st.sampled_from([True, True, False]), max_size=6))}
+    return {"topo": topo, "steps": steps, "outcomes": outcomes, "claims": claims}
 
 
 @st.composite
@@ -124,6 +139,8 @@ def game_strategy(draw):
     ops += [st.tuples(st.just("drain2"), st.sampled_from([100, 600, 900, 1500, 2000])).map(list)] * 3
     ops += [st.just(["pf_hit"])] * 2 + [st.just(["settle"]), st.just(["mb_start"]), st.just(["mb_start"]),
                                           st.just(["mb_add"]), st.just(["bs_enable"]), st.just(["early_save"]), st.just(["bs_eject"])]
+    if topo.get("upper"):
+        ops += [st.just(["upper_exit"])] * 3 + [st.just(["pfu_hit"])]
     if topo["lock"]:
         ops += [st.tuples(st.just("lock_shot"), st.sampled_from([50, 400, 1500])).map(list)] * 3
     if topo["launcher"]["mechanical"]:
@@ -216,6 +233,9 @@ def build_config(topo):
             lock["ball_switches"] = ", ".join("s_k%d" % i for i in range(1, k["cap"] + 1))
         else:
             lock.update({"entrance_switch": "s_k_ent", "ball_capacity": k["cap"]})
+    if lock and topo.get("upper"):
+        lock.update({"eject_targets": "playfield_upper", "ball_missing_target": "playfield_upper",
+                     "target_on_unexpected_ball": "playfield_upper"})
     if lock and topo["lock_first"]:
         bd["bd_lock"] = lock
     if t["outhole"]:
@@ -241,7 +261,12 @@ def build_config(topo):
                         "max_eject_attempts": topo["max_attempts"]}
     if lock and not topo["lock_first"]:
         bd["bd_lock"] = lock
-    return {"ball_devices": bd, "virtual_platform_start_active_switches": start_active}
+    cfg = {"ball_devices": bd, "virtual_platform_start_active_switches": start_active}
+    if topo.get("upper"):
+        cfg["playfields"] = {"playfield_upper": {"default_source_device": "bd_lock"}}
+        cfg["playfield_transfers"] = {"pt": {"ball_switch": "s_pt", "captures_from": "playfield_upper",
+                                             "eject_target": "playfield"}}
+    return cfg
 
 
 # ----------------------------------------------------------------------------------------------------- world
@@ -262,6 +287,7 @@ class World:
         self.topo = topo
         self.outcomes = {k: list(v) for k, v in outcomes.items()}
         self.loose = 0
+        self.loose_up = 0          # balls loose on the upper playfield
         self.transit_to = collections.Counter()
         self.pending = 0
         self.changes = 0           # counts every physical change (used to detect quiescence)
@@ -301,7 +327,8 @@ class World:
             k = topo["lock"]
             if k["kind"] == "switch":
                 self.devs["bd_lock"] = Dev("bd_lock", "switch", k["cap"],
-                                           ["s_k%d" % i for i in range(1, k["cap"] + 1)], "c_lock", "playfield", 0)
+                                           ["s_k%d" % i for i in range(1, k["cap"] + 1)], "c_lock",
+                                           "playfield_upper" if topo.get("upper") else "playfield", 0)
             else:
                 self.devs["bd_lock"] = Dev("bd_lock", "entrance", k["cap"], ["s_k_ent"], "c_lock", "playfield", 0)
         self.drain_dev = "bd_outhole" if t["outhole"] else "bd_trough"
@@ -428,7 +455,7 @@ class World:
     def on_pulse(self, d):
         self.pulses[d.name] += 1
         self.pulse_log.append((round(self.now(), 4), d.name))
-        if d.target != "playfield":
+        if not d.target.startswith("playfield"):
             tgt = self.devs[d.target]
             if d.content > 0 and tgt.content + self.transit_to[tgt.name] >= tgt.cap:
                 ctx = ""
@@ -447,7 +474,7 @@ class World:
             oc = ["ok", 30, 300, True]     # an entrance-counted device cannot see a failed eject (outside the domain)
         self.note("pulse", d.name, oc)
         kind = oc[0]
-        if kind in ("weak", "fall_back") and d.target == "playfield":
+        if kind in ("weak", "fall_back") and d.target.startswith("playfield"):
             self.pf_anomaly.add(d.name)
         if kind == "weak":
             self.classes.add("eject too weak")
@@ -479,7 +506,12 @@ class World:
             self.transit_to[d.name] += 1
             self.later(back, self.arrive, d.name, d.name, False)
             return
-        if d.target == "playfield":
+        if d.target == "playfield_upper":
+            self.loose_up += 1
+            self.delivered["playfield_upper"] += 1
+            if hit:
+                self.later(transit, self.pf_hit, True)
+        elif d.target == "playfield":
             self.loose += 1
             self.delivered["playfield"] += 1
             if hit:
@@ -489,8 +521,17 @@ class World:
             self.later(transit, self.arrive, d.target, d.name, True)
 
     # -- player / physics operations
-    def pf_hit(self):
+    def pf_hit(self, upper=False):
+        if upper:
+            if self.loose_up > 0 and not any(self.devs[n].target == "playfield_upper" and self.mdev and
+                                             self.mdev[n].state in ("ejecting", "ball_left", "failed_confirm")
+                                             for n in self.pf_anomaly):
+                self.sw("s_pfu", 1)
+                self.later(0.02, self.sw, "s_pfu", 0)
+            return
         for name in list(self.pf_anomaly):
+            if self.devs[name].target != "playfield":
+                continue
             if self.mdev and self.mdev[name].state in ("ejecting", "ball_left", "failed_confirm"):
                 # MPF cannot tell which ball hit a playfield switch: no other ball hits one while a failed eject to
                 # the playfield awaits its verdict (documented restriction of the domain)
@@ -550,7 +591,21 @@ class World:
             return False
         for _ in range(n):
             self._leave(d)
-            self.loose += 1
+            if d.target == "playfield_upper":
+                self.loose_up += 1      # a ball popping out of the VUK lands where the VUK delivers to
+            else:
+                self.loose += 1
+        return True
+
+    def upper_exit(self):
+        """A ball leaves the upper playfield over the transfer switch and is loose on the main playfield again."""
+        if self.loose_up <= 0:
+            return False
+        self.changes += 1
+        self.loose_up -= 1
+        self.loose += 1
+        self.sw("s_pt", 1)
+        self.later(0.03, self.sw, "s_pt", 0)
         return True
 
     def busy(self):
@@ -575,6 +630,7 @@ def run(case, focus=None):
         m = rig.machine
         w = World(rig, topo, case["outcomes"], calm=bool(case.get("calm")))
         pf = m.playfield
+        pfu = m.ball_devices["playfield_upper"] if topo.get("upper") else None
         mdev = {n: m.ball_devices[n] for n in w.devs}
         w.mdev = mdev
         caps = {n: w.devs[n].cap for n in w.devs}
@@ -585,6 +641,15 @@ def run(case, focus=None):
         claims = list(case.get("claims") or [])
 
         def add(lst, sig, msg, **kw):
+            if state.get("early_capture_two_pf") and sig in ("rest:playfield-count-differs",
+                                                              "rest:upper-playfield-count-differs",
+                                                              "rest:playfield-available-differs", "rest:conservation",
+                                                              "always:negative-playfield-count"):
+                # known finding: the transient -1 of a playfield (capture before the eject is confirmed) makes
+                # BallController._balance_playfields move a ball from the other playfield's count - for good
+                msg = "[%s] %s" % (sig, msg)
+                sig = ("always:" if sig.startswith("always:") else "rest:") + \
+                    "playfields-rebalanced-after-capture-before-eject-confirm"
             if w.mid_eject_entry and not sig.endswith(":capture-before-eject-confirm"):
                 # MPF takes a ball which enters a device while that device's eject is unconfirmed for the ejected ball
                 # coming back (known finding). Its books are off from then on, so everything observed later in this
@@ -610,6 +675,15 @@ def run(case, focus=None):
                 elif b > caps[n]:
                     add(out["c04"], "always:count-above-capacity",
                         "%s.balls == %d > capacity %d observed at %s" % (n, b, caps[n], where), t=rig.now)
+            if pfu is not None and pfu.balls < 0 and pfu.balls + pfu.num_balls_requested >= 0:
+                state["early_capture_two_pf"] = True
+            if pfu is not None and pfu.balls < 0:
+                add(out["c04"], "always:negative-playfield-count" +
+                    (":capture-before-eject-confirm" if pfu.balls + pfu.num_balls_requested >= 0 else ""),
+                    "playfield_upper.balls == %d (num_balls_requested %d) observed at %s" %
+                    (pfu.balls, pfu.num_balls_requested, where), t=rig.now)
+            if pf.balls < 0 and pf.balls + pf.num_balls_requested >= 0 and pfu is not None:
+                state["early_capture_two_pf"] = True
             if pf.balls < 0:
                 if pf.balls + pf.num_balls_requested >= 0:
                     # a ball was captured from the playfield before the eject which brought it there was confirmed
@@ -632,7 +706,16 @@ def run(case, focus=None):
         names = ["balldevice_%s_%s" % (n, e) for n in mdev for e in WATCH]
         names += ["balldevice_balls_available", "balldevice_ball_missing", "balldevice_captured_from_playfield",
                   "playfield_ball_count_change", "playfield_active", "found_new_ball",
-                  "unexpected_ball_on_playfield", "balldevice_playfield_ball_enter"]
+                  "unexpected_ball_on_playfield", "balldevice_playfield_ball_enter", "playfield_upper_ball_count_change",
+                  "playfield_upper_active", "balldevice_captured_from_playfield_upper",
+                  "playfield_transfer_pt_ball_transferred"]
+
+        def jumped(**kwargs):
+            # BallController._balance_playfields moved a ball between the playfield counts. No ball jumps between the
+            # playfields in this world: it reacted to a transient negative count (see the known finding)
+            state["early_capture_two_pf"] = True
+            w.classes.add("playfield_jump posted")
+        m.events.add_handler("playfield_jump", jumped, priority=1000)
         for evn in names:
             m.events.add_handler(evn, make_handler(evn), priority=1000)
         if game and game.get("ball_save"):
@@ -707,7 +790,11 @@ def run(case, focus=None):
                 add(out["c04"], "rest:playfield-count-differs",
                     "at rest (%s) playfield.balls == %d but %d balls are loose" % (where, pf.balls, w.loose),
                     t=rig.now)
-            total = pf.balls + sum(d.balls for d in mdev.values())
+            if pfu is not None and pfu.balls != w.loose_up and not broken:
+                add(out["c04"], "rest:upper-playfield-count-differs",
+                    "at rest (%s) playfield_upper.balls == %d but %d balls are loose up there (main playfield: %d counted, "
+                    "%d loose)" % (where, pfu.balls, w.loose_up, pf.balls, w.loose), t=rig.now)
+            total = pf.balls + (pfu.balls if pfu is not None else 0) + sum(d.balls for d in mdev.values())
             known = m.ball_controller.num_balls_known
             if (total != known or known != topo["n"]) and not broken:
                 add(out["c04"], "rest:conservation",
@@ -719,7 +806,7 @@ def run(case, focus=None):
                 if broken:
                     break       # devices upstream of a broken one legitimately wait for ever
                 tgt_ = w.devs[n].target
-                waits_for_room = d.state == "waiting_for_target_ready" and tgt_ != "playfield" and \
+                waits_for_room = d.state == "waiting_for_target_ready" and not tgt_.startswith("playfield") and \
                     w.devs[tgt_].content >= w.devs[tgt_].cap and w.devs[n].content > 0
                 if waits_for_room:
                     w.classes.add("eject waits for room in a full target")
@@ -752,7 +839,7 @@ def run(case, focus=None):
                             (where, r, tname, w.delivered[tname], queued), t=rig.now)
             if game and m.game and not broken:
                 bip = m.game.balls_in_play
-                in_play = w.loose + w.devs["bd_launcher"].content + \
+                in_play = w.loose + w.loose_up + w.devs["bd_launcher"].content + \
                     (w.devs["bd_lock"].content if "bd_lock" in w.devs else 0) + \
                     (w.devs["bd_vuk"].content if "bd_vuk" in w.devs else 0)
                 home = sum(w.devs[n].content for n in ("bd_trough", "bd_outhole") if n in w.devs)
@@ -804,11 +891,13 @@ def run(case, focus=None):
                     requests[op[1]] += 1
             elif kind == "eject":
                 mdev[op[1]].eject(op[2])
-                requests["playfield"] += op[2]
+                requests[w.devs[op[1]].target if w.devs[op[1]].target.startswith("playfield") and op[1] == "bd_lock"
+                         else "playfield"] += op[2]
             elif kind == "eject_all":
                 av = mdev[op[1]].available_balls
                 if mdev[op[1]].eject_all():
-                    requests["playfield"] += av
+                    requests[w.devs[op[1]].target if w.devs[op[1]].target.startswith("playfield") and op[1] == "bd_lock"
+                             else "playfield"] += av
             elif kind == "collect":
                 m.ball_controller.collect_balls()
             elif kind == "start":
@@ -836,6 +925,13 @@ def run(case, focus=None):
             elif kind == "pf_hit":
                 applied = w.loose > 0
                 w.pf_hit()
+            elif kind == "pfu_hit":
+                applied = w.loose_up > 0
+                w.pf_hit(True)
+            elif kind == "upper_exit":
+                applied = w.upper_exit()
+                if applied:
+                    w.classes.add("ball comes back from the upper playfield")
             elif kind == "knock":
                 applied = w.knock()
                 if applied:
